@@ -265,7 +265,12 @@ EXTRA = {
     "C06": " Which sites are pinned: the real Device.terminal_info, executed over the free term algebra of the device state, returns the boundary sites inside each "
            "CURRENT terminal of the CURRENT mesh after any history of calls (re-meshing, in-place terminal edits); the constructor clause is decided in the __init__ unit (C06.init.*).",
     "C07": " The real generate_mesh (wrapper around Triangle) is under contract with a stub mesher whose output is symbolic: every return path hands back the last triangulation moved "
-           "rigidly by the shift that was applied to the outline.",
+           "rigidly by the shift that was applied to the outline. The integer / adjacency part of the mesh construction is under contract for a symbolic number of sites, triangles and "
+           "edges: get_edges hands np.unique exactly the three sorted sides of every triangle and flags an edge iff its multiplicity is one; Mesh.find_boundary_indices returns the distinct "
+           "end points of exactly the flagged edges; make_adj_directed_tri_indices stores triangle index + 1 at the directed sides; get_dual_edge_lengths groups the adjacency entries by "
+           "unordered site pair (loop contract: one append of v - 1 per entry) and writes, for edge e only at position e, circumcentre-to-midpoint for an edge of one triangle and "
+           "circumcentre-to-circumcentre for an edge of two (loop contract: own position, value independent of other iterations) - relative to assumed contracts of np.sort / np.unique / "
+           "scipy.sparse (A4) and the preconditions 'consistently oriented triangulation', 'every edge is a side of one or two triangles'.",
     "C09": " Syntactic contract over the numerical core: no loop, comprehension or order-exposing conversion iterates over a hash-ordered set (candidates are replayed with different PYTHONHASHSEED values).",
     "C12": " The constructor (with and without a seed solution) is under contract for the initial step and the step cap.",
     "C16": " Operand kinds include parameters made by closure factories (equal under ==, different values).",
